@@ -93,13 +93,13 @@ impl super::DebugSession {
 
     fn with_breakpoint_record_mut<T>(
         &mut self,
-        addr: debugger::address::Address,
+        number: u32,
         f: impl FnOnce(&mut super::breakpoint::BreakpointRecord) -> T,
     ) -> Option<T> {
         for records in self.breakpoints_by_source.values_mut() {
             if let Some(record) = records
                 .iter_mut()
-                .find(|record| record.addresses.contains(&addr))
+                .find(|record| record.numbers.contains(&number))
             {
                 return Some(f(record));
             }
@@ -107,14 +107,14 @@ impl super::DebugSession {
         if let Some(record) = self
             .function_breakpoints
             .iter_mut()
-            .find(|record| record.addresses.contains(&addr))
+            .find(|record| record.numbers.contains(&number))
         {
             return Some(f(record));
         }
         if let Some(record) = self
             .instruction_breakpoints
             .iter_mut()
-            .find(|record| record.addresses.contains(&addr))
+            .find(|record| record.numbers.contains(&number))
         {
             return Some(f(record));
         }
@@ -123,9 +123,9 @@ impl super::DebugSession {
 
     fn record_breakpoint_hit(
         &mut self,
-        addr: debugger::address::Address,
+        number: u32,
     ) -> Option<super::breakpoint::BreakpointHitInfo> {
-        self.with_breakpoint_record_mut(addr, |record| {
+        self.with_breakpoint_record_mut(number, |record| {
             record.hit_count = record.hit_count.saturating_add(1);
             super::breakpoint::BreakpointHitInfo {
                 id: record.id,
@@ -195,8 +195,16 @@ impl super::DebugSession {
     }
 
     fn should_skip_breakpoint(&mut self, pid: Pid, addr: RelocatedAddress) -> anyhow::Result<bool> {
-        let Some(hit) = self.record_breakpoint_hit(debugger::address::Address::Relocated(addr))
-        else {
+        // The record is looked up by the number of the breakpoint installed at the stop address:
+        // a record created before the debuggee started holds `Global` addresses, which never
+        // compare equal to the relocated stop address.
+        let number = self.debugger.as_ref().and_then(|dbg| {
+            dbg.breakpoints_snapshot()
+                .into_iter()
+                .find(|view| view.addr == debugger::address::Address::Relocated(addr))
+                .map(|view| view.number)
+        });
+        let Some(hit) = number.and_then(|number| self.record_breakpoint_hit(number)) else {
             return Ok(false);
         };
 
